@@ -5,6 +5,7 @@ import (
 	"os"
 	"regexp"
 	"sync"
+	"unicode/utf8"
 
 	"github.com/reeflective/readline/inputrc"
 	"github.com/reeflective/readline/internal/strutil"
@@ -223,6 +224,13 @@ func (k *Keys) ReadKey() (key rune, isAbort bool) {
 		key = k.macroKeys[0]
 		k.macroKeys = k.macroKeys[1:]
 
+	case len(k.buf) > 0:
+		// Keys already read but not used yet (typed ahead, pasted)
+		// come before anything new from the terminal.
+		char, size := utf8.DecodeRune(k.buf)
+		key = char
+		k.buf = k.buf[size:]
+
 	case k.waiting:
 		buf := <-k.keysOnce
 		if len(buf) == 0 {
@@ -237,7 +245,11 @@ func (k *Keys) ReadKey() (key rune, isAbort bool) {
 			return 0, true
 		}
 
-		key = []rune(string(buf))[0]
+		// Only the first key is ours: the others, read
+		// along with it, are kept for whoever comes next.
+		char, size := utf8.DecodeRune(buf)
+		key = char
+		k.buf = append(k.buf, buf[size:]...)
 	}
 
 	// Always mark those keys as matched, so that
